@@ -213,7 +213,7 @@ Definition comps_post (h : nat) (cts : list ctype) (rd : bytes) (names : list wn
       w_cursor w' <= w_cursor w + length rd /\ ext (w_cursor w) w w' /\
       exists parts, parts_at (w_buf w') L' parts (w_cursor w) (w_cursor w') /\
         map part_abs parts = rd_parts cts rd /\ Forall (part_cp (exactf (w_mode w))) parts /\
-        forall s, L' s <-> L s \/ In s (parts_starts parts)
+        (forall s, L' s <-> L s \/ In s (parts_starts parts)) /\ parts_shape cts parts
   | Err (e, w') => (e = Truncation /\ w_avail w < w_cursor w + length rd) \/ (e = InvalidRdata /\ cts <> [])
   | Panic => False
   end.
@@ -247,7 +247,7 @@ Proof.
       split; [reflexivity|]. split; [reflexivity|]. split; [exact Ha|]. split; [exact Hv|].
       split; [reflexivity|]. split; [lia|]. split; [apply ext_refl; apply Hi|].
       exists []. simpl. rewrite E0. split; [reflexivity|]. split; [reflexivity|]. split; [constructor|].
-      intros s; tauto.
+      split; [intros s; tauto|exact I].
     + destruct (try_push rd w) as [[u w1]|[e w1]|] eqn:E; simpl.
       * destruct (try_push_ext (w_cursor w) _ _ _ _ E (le_n _)) as [X [[S1 [S2 [S3 S4]]] [Hcur [Hsl Hag]]]].
         exists L. rewrite app_nil_r. split; [apply grew_refl|]. split; [eapply NInv_try_push; eauto|].
@@ -255,12 +255,14 @@ Proof.
         split; [eapply vec_mono; eauto; lia|]. split; auto. split; [lia|]. split; [exact X|].
         exists [LPRaw (w_cursor w) rd]. simpl. rewrite E0.
         split; [split; auto; split; auto; split; [rewrite <- Hcur; exact Hsl|split; lia]|].
-        split; [reflexivity|]. split; [repeat constructor|]. intros s; tauto.
+        split; [reflexivity|]. split; [repeat constructor|]. split; [intros s; tauto|].
+        destruct rd; [simpl in E0; discriminate E0|discriminate].
       * left. apply try_push_err in E as E'. destruct E' as [-> ->]. split; auto.
         eapply try_push_err_size; eauto. apply Hi.
       * destruct Hi as [[N1 N2] _ _ _ _ _ _ _]. eapply try_push_no_panic; eauto.
   - assert (Hstep : forall (wr : wname -> writer -> M (option prior)),
                (forall n, wf_name n -> name_postL (exactf (w_mode w)) h n w L (wr n w)) ->
+               match ct with CtFixed _ => False | _ => True end ->
                (is_comp ct = false -> forall n pr w1, wr n w = Ok (pr, w1) ->
                   slice (w_buf w1) (w_cursor w) (w_cursor w1) = nm_wire n) ->
                rd_parts (ct :: rest) rd =
@@ -283,7 +285,7 @@ Proof.
                  | Err _ => Err (InvalidRdata, w)
                  | Panic => Panic
                  end).
-    { intros wr Hwr Hplain Hrp Hrn. unfold comps_post at 1. rewrite Hrn, Hrp.
+    { intros wr Hwr Hnf Hplain Hrp Hrn. unfold comps_post at 1. rewrite Hrn, Hrp.
       destruct (parse_uncompressed_name rd false) as [[nm len]|e|] eqn:Ep.
       - destruct (parse_unc_name rd nm len Hwf Ep) as [Hwn [Hlen Hle]].
         pose proof (Hwr _ Hwn) as Hpost. cbn zeta.
@@ -305,7 +307,7 @@ Proof.
           unfold comps_post in IH.
           destruct (write_components rest (skipn len rd) (hv_push v pr) (set_mrn w1 pr)) as [[v' w3]|[e w3]|];
             auto.
-          * destruct IH as [L3 [G3 [Hi3 [Q3 [O3 [A3 [V3 [Vs [Hc3 [X3 [parts3 [P3 [Pa3 [Pc3 Pt3]]]]]]]]]]]]]].
+          * destruct IH as [L3 [G3 [Hi3 [Q3 [O3 [A3 [V3 [Vs [Hc3 [X3 [parts3 [P3 [Pa3 [Pc3 [Pt3 Ps3]]]]]]]]]]]]]]].
             simpl in Q3, O3, Hc3, X3, G3, P3, Pc3.
             rewrite skipn_length in Hc3.
             exists L3. split.
@@ -333,7 +335,8 @@ Proof.
               split; [simpl; lia|]. simpl. eapply shape_mono; [apply G1|exact Hsh]. }
             split; [simpl; rewrite Pa3; reflexivity|].
             split; [constructor; [reflexivity|rewrite (x_mode _ _ _ X) in Pc3; exact Pc3]|].
-            intros s. rewrite Pt3, Ht1. simpl. unfold chunk_starts. simpl. rewrite in_app_iff. tauto.
+            split; [intros s; rewrite Pt3, Ht1; simpl; unfold chunk_starts; simpl; rewrite in_app_iff; tauto|].
+            destruct ct; simpl; auto; contradiction.
           * destruct IH as [[-> Hs]|[-> Hs]]; [left|right; split; auto; discriminate].
             split; auto. simpl in Hs. rewrite skipn_length in Hs. rewrite (x_av _ _ _ X) in Hs. lia.
         + destruct Hpost as [-> [X [Sd Hs]]]. left. split; auto. lia.
@@ -341,9 +344,9 @@ Proof.
       - right. split; auto. discriminate.
       - destruct (parse_uncompressed_total rd false) as [Hp _]. congruence. }
     destruct ct as [| |k].
-    + apply (Hstep write_unhinted_name); [|discriminate|reflexivity|reflexivity].
+    + apply (Hstep write_unhinted_name); [|exact I|discriminate|reflexivity|reflexivity].
       intros n Hwn. apply write_unhinted_L; auto.
-    + apply (Hstep write_uncompressed_name); [| |reflexivity|reflexivity].
+    + apply (Hstep write_uncompressed_name); [|exact I| |reflexivity|reflexivity].
       * intros n Hwn. apply name_postL_weaken. apply write_uncompressed_L; auto.
       * intros _ n pr w1 E. eapply uncompressed_plain; eauto.
     + simpl. destruct (length rd <? k) eqn:Ek; [right; split; auto; discriminate|].
@@ -362,7 +365,7 @@ Proof.
         specialize (IH (skipn k rd) names gr v w1 L Hi1 (wf_bytes_skipn _ _ Hwf) A1 V1).
         unfold comps_post in IH.
         destruct (write_components rest (skipn k rd) v w1) as [[v' w3]|[e w3]|]; auto.
-        -- destruct IH as [L3 [G3 [Hi3 [Q3 [O3 [A3 [V3 [Vs [Hc3 [X3 [parts3 [P3 [Pa3 [Pc3 Pt3]]]]]]]]]]]]]].
+        -- destruct IH as [L3 [G3 [Hi3 [Q3 [O3 [A3 [V3 [Vs [Hc3 [X3 [parts3 [P3 [Pa3 [Pc3 [Pt3 Ps3]]]]]]]]]]]]]]].
            rewrite skipn_length in Hc3.
            exists L3. split.
            { apply (grew_trans w w1 w3 L L L3); [apply X|apply X3|apply grew_refl|exact G3]. }
@@ -379,7 +382,8 @@ Proof.
              - pose proof (x_cur _ _ _ X3). split; [lia|]. rewrite <- Hcur. exact P3. }
            split; [simpl; rewrite Pa3; reflexivity|].
            split; [constructor; [exact I|rewrite (x_mode _ _ _ X) in Pc3; exact Pc3]|].
-           intros s. rewrite Pt3. simpl. tauto.
+           split; [intros s; rewrite Pt3; simpl; tauto|].
+           simpl. split; auto. rewrite firstn_length. lia.
         -- destruct IH as [[-> Hs]|[-> Hs]]; [left|right; split; auto; discriminate].
            split; auto. rewrite skipn_length in Hs. rewrite (x_av _ _ _ X) in Hs. lia.
       * left. apply try_push_err in E as E'. destruct E' as [-> ->]. split; auto.
@@ -449,7 +453,8 @@ Qed.
 
 Definition rr_desc (r : lrr) (owner : wname) (cp : bool) (ty cl ttl : N) (cts : list ctype) (rd : bytes) : Prop :=
   nc_name (lr_owner r) = owner /\ nc_cp (lr_owner r) = cp /\ lr_ty r = ty /\ lr_cl r = cl /\ lr_ttl r = ttl /\
-  map part_abs (lr_parts r) = rd_parts cts rd /\ Forall (part_cp cp) (lr_parts r).
+  map part_abs (lr_parts r) = rd_parts cts rd /\ Forall (part_cp cp) (lr_parts r) /\
+  parts_shape cts (lr_parts r) /\ lr_end r <= nc_end (lr_owner r) + 10 + length rd.
 
 Lemma push3 a1 a2 a3 w u2 w2 u3 w3 u4 w4 : try_push a1 w = Ok (u2, w2) -> try_push a2 w2 = Ok (u3, w3) ->
   try_push a3 w3 = Ok (u4, w4) ->
@@ -572,7 +577,7 @@ Proof.
   destruct (write_components (component_types cl ty) rd v w5) as [[v' w6]|[e w6]|]; cbn [bind]; auto.
   2:{ destruct P6 as [[-> Hs]|[-> Hs]]; [left|right; auto]. split; auto.
       unfold w5 in Hs; simpl in Hs. lia. }
-  destruct P6 as [L6 [G6 [Hi6 [Q6 [O6 [A6 [V6 [Vs [Hc6 [X6 [parts [P6 [Pa6 [Pc6 Pt6]]]]]]]]]]]]]].
+  destruct P6 as [L6 [G6 [Hi6 [Q6 [O6 [A6 [V6 [Vs [Hc6 [X6 [parts [P6 [Pa6 [Pc6 [Pt6 Ps6]]]]]]]]]]]]]]].
   unfold w5 in Q6, O6, Hc6, X6, P6, Pc6; simpl in Q6, O6, Hc6, X6, P6, Pc6. fold w5 in X6.
   pose proof (x_cur _ _ _ X6) as Hcur6. unfold w5 in Hcur6; simpl in Hcur6.
   destruct (w_cursor w6 <? c4 + 2) eqn:Ec; [apply Nat.ltb_lt in Ec; lia|].
@@ -637,7 +642,7 @@ Proof.
     unfold okr. pose proof (ni_lo _ _ _ Hi). lia. }
   split; [reflexivity|]. split; [reflexivity|].
   split.
-  { unfold rr_desc; simpl. repeat split; auto. rewrite <- Hm1.
+  { unfold rr_desc; simpl. repeat split; auto; try lia. rewrite <- Hm1.
     rewrite <- (x_mode _ _ _ X2), <- (x_mode _ _ _ X3), <- (x_mode _ _ _ X4). exact Pc6. }
   intros s. rewrite Pt6, Ht1. unfold rr_starts, chunk_starts. simpl. rewrite in_app_iff. tauto.
 Qed.
